@@ -46,7 +46,6 @@ var vRatios = []float32{0.2, 1.0, 0.0}
 // H_C06_Cycle: one compaction cycle over every selectable subset never changes what any key reads as, now,
 // after a later flush and after a restart; the selection is a gap-free run in age order.
 func H_C06_Cycle() {
-	vrt.RandPromoteBudget(0)
 	universe := vUniverse[:1]
 	nT := 3
 	if vrt.Thorough() {
@@ -57,6 +56,18 @@ func H_C06_Cycle() {
 			universe = vUniverse
 		}
 	}
+	vCycle(universe, nT, false)
+}
+
+// H_C06_TwoKeys: two keys over three tables (tables with disjoint key ranges, a tombstone in a later table of the
+// run for a key that lives in an excluded older table, ...) with the cheaper dimensions fixed: threshold 0, no
+// second cycle.
+func H_C06_TwoKeys() {
+	vCycle(vUniverse, 3, true)
+}
+
+func vCycle(universe [][]byte, nT int, reduced bool) {
+	vrt.RandPromoteBudget(0)
 	h := vNewDBEnvU(universe)
 	defer h.fs.Cleanup()
 	vrt.Assert(h.open(MemstoreSizeBytes(math.MaxUint64), WriteBufferSizeBytes(64), ReadBufferSizeBytes(64)) == nil, "db/open-no-error")
@@ -66,8 +77,13 @@ func H_C06_Cycle() {
 
 	// compaction settings: which tables are selected is up to the solver
 	h.db.compactedMaxSizeBytes = h.chooseMaxSize("maxsize")
-	h.db.compactionRatio = vRatios[vrt.Choose("ratio", len(vRatios))]
-	h.db.compactionFileThreshold = vrt.Range("threshold", 0, 2)
+	if reduced {
+		h.db.compactionRatio = vRatios[vrt.Choose("ratio", 2)]
+		h.db.compactionFileThreshold = 0
+	} else {
+		h.db.compactionRatio = vRatios[vrt.Choose("ratio", len(vRatios))]
+		h.db.compactionFileThreshold = vrt.Range("threshold", 0, 2)
+	}
 
 	// selection must be a gap-free run in age order
 	act := h.db.sstableManager.candidateTablesForCompaction(h.db.compactedMaxSizeBytes, h.db.compactionRatio)
@@ -92,7 +108,7 @@ func H_C06_Cycle() {
 	h.checkReads("cycle/reads-unchanged-by-compaction")
 
 	// a second cycle with new settings, a later flush and a restart must not change anything either
-	if h.cycles > 0 && vrt.Choose("second", 2) == 1 {
+	if !reduced && h.cycles > 0 && vrt.Choose("second", 2) == 1 {
 		h.db.compactedMaxSizeBytes = h.chooseMaxSize("maxsize2")
 		h.db.compactionFileThreshold = 0
 		h.compactionCycle()
